@@ -45,7 +45,8 @@ def col_selector(kind, nch=NCH):
 
 def make_item(req, as_array=False):
     if req['k'] == 'int':
-        return req['a']
+        # (as_array: the same integer as a NumPy integer scalar, e.g. an element of a spike-sample array)
+        return (np.int64(req['a']) if req['a'] % 2 else np.int32(req['a'])) if as_array else req['a']
     if req['k'] == 'slice':
         return slice(None if req['a'] == NONE else req['a'], None if req['b'] == NONE else req['b'])
     return np.asarray(req['idx'], dtype=np.int64) if as_array else list(req['idx'])
@@ -145,7 +146,7 @@ def _compare(ctx, case, rd):
     for name, reader, dtype, lists in rd.readers:
         if req['k'] == 'list' and not lists:
             continue
-        for as_array in ((False, True) if req['k'] == 'list' else (False,)):
+        for as_array in ((False, True) if req['k'] in ('list', 'int') else (False,)):
             ctx.traces += 1
             obs = None
             with ctx.guard('index', dict(case=case, backend=name, as_array=as_array)):
